@@ -36,6 +36,8 @@ def add_parent_to_arguments(arguments, func):
             pass
         else:
             add_parent(arguments.vararg, func)
+            if arguments.vararg.annotation is not None:
+                add_parent(arguments.vararg.annotation, func.namespace)
 
     if arguments.kwarg:
         if hasattr(arguments, 'kwargannotation') and arguments.kwargannotation is not None:
@@ -44,6 +46,8 @@ def add_parent_to_arguments(arguments, func):
             pass
         else:
             add_parent(arguments.kwarg, func)
+            if arguments.kwarg.annotation is not None:
+                add_parent(arguments.kwarg.annotation, func.namespace)
 
 
 def add_parent_to_functiondef(functiondef):
